@@ -2396,3 +2396,167 @@ func ruleR261(c *Ctx) {
 		c.Missing("engine instantiation", "no method of Engine hands a process element to NewProcess / NewProcessSet")
 	}
 }
+
+func init() {
+	register(&Rule{ID: "R262", Title: "every message flow of the document is known to the set: the loop that indexes the message flows stores each one unconditionally", Min: 1, Run: ruleR262})
+	register(&Rule{ID: "R263", Title: "a completion monitor listens where it reports: every Subscribe / Unsubscribe / Send of a ceaseFlowMonitor is on the tracer it was handed", Min: 2, Run: ruleR263})
+}
+
+func ruleR262(c *Ctx) {
+	p := c.P
+	what := "a process that was instantiated by a message may throw itself (a chain of pools, a reply). An index that keeps only the flows leaving the processes that run from the start drops those throws silently: the third pool is never instantiated and the set reports completion; the first pool waits for a reply that was never delivered"
+	n := 0
+	for _, f := range p.Funcs {
+		if f.Body == nil || f.Pkg.PkgPath != pathBpmn {
+			continue
+		}
+		in := info(f)
+		inspectNoLit(f.Body, func(m ast.Node) bool {
+			as, ok := m.(*ast.AssignStmt)
+			if !ok || len(as.Lhs) != 1 {
+				return true
+			}
+			ix, ok := unparen(as.Lhs[0]).(*ast.IndexExpr)
+			if !ok {
+				return true
+			}
+			mp, ok := in.TypeOf(ix.X).Underlying().(*types.Map)
+			if !ok {
+				return true
+			}
+			pt, ok := mp.Elem().(*types.Pointer)
+			if !ok || !isNamed(pt.Elem(), pathSchema, "MessageFlow") {
+				return true
+			}
+			n++
+			var conds []string
+			lp := innermostLoop(p, as)
+			for _, pc := range polarConds(p, as) {
+				if _, isFor := p.Parent(pc.cond).(*ast.ForStmt); isFor {
+					continue
+				}
+				if lp != nil && pc.cond.Pos() >= f.Root().Body.Pos() {
+					conds = append(conds, exprString(pc.cond))
+				}
+			}
+			c.Check(len(conds) == 0 && lp != nil, f, as, "message flow indexed in "+f.Root().QName(), what, ifElse(len(conds) == 0, "stored for every flow of the loop", "stored only if "+strings.Join(conds, " and ")))
+			return true
+		})
+	}
+	if n == 0 {
+		c.Missing("message flow index", "no store into a map of message flows was found")
+	}
+}
+
+func ruleR263(c *Ctx) {
+	p := c.P
+	what := "the monitor is handed the private tracer of its scope: only that scope's start events are traced there. Listening on the instance's public tracer instead — which several instances of one model may share — it counts the neighbour's start events (the same *schema.StartEvent pointers) as its own and reports completion before its own second start event has fired"
+	n := 0
+	for _, f := range p.Funcs {
+		if f.Body == nil || f.Obj == nil || f.Obj.Name() != "ceaseFlowMonitor" || f.Pkg.PkgPath != pathBpmn {
+			continue
+		}
+		sig := f.Obj.Type().(*types.Signature)
+		var tp types.Object
+		for i := 0; i < sig.Params().Len(); i++ {
+			if isNamed(sig.Params().At(i).Type(), pathTracing, "ITracer") {
+				tp = sig.Params().At(i)
+			}
+		}
+		if tp == nil {
+			continue
+		}
+		n++
+		in := info(f)
+		var bad []string
+		ast.Inspect(f.Body, func(m ast.Node) bool {
+			cl, ok := m.(*ast.CallExpr)
+			if !ok {
+				return true
+			}
+			for _, meth := range []string{"Subscribe", "SubscribeChannel", "Unsubscribe", "Send"} {
+				if isTracerMethod(in, cl, meth) {
+					se := unparen(cl.Fun).(*ast.SelectorExpr)
+					okRecv := false
+					for _, src := range resolveLocalExpr(in, f, se.X) {
+						if id, isId := unparen(src).(*ast.Ident); isId && objOf(in, id) == tp {
+							okRecv = true
+						}
+					}
+					if !okRecv {
+						bad = append(bad, exprString(cl.Fun)+" at "+c.pos(cl))
+					}
+				}
+			}
+			return true
+		})
+		c.Check(len(bad) == 0, f, f.Decl, "tracer used by "+f.QName(), what, ifElse(len(bad) == 0, "only the tracer parameter "+tp.Name(), "another tracer: "+strings.Join(bad, "; ")))
+	}
+	if n == 0 {
+		c.Missing("completion monitors", "no ceaseFlowMonitor that takes a tracer was found")
+	}
+}
+
+func init() {
+	register(&Rule{ID: "R264", Title: "a sub-process is over when its scope has ceased, not when a token ended: in the relay's dispatch only the CeaseFlowTrace clause leaves the loop (break, return, goto)", Min: 1, Run: ruleR264})
+}
+
+func ruleR264(c *Ctx) {
+	p := c.P
+	what := "the parent token continues only after every inner token is consumed — that is what CeaseFlowTrace of the inner scope says. Ending the activation at the CompletionTrace of an end event releases the parent while a parallel branch inside is still running: the instance reports completion with a task of the sub-process unanswered"
+	n := 0
+	for _, f := range p.Funcs {
+		if f.Body == nil || f.Pkg.PkgPath != pathBpmn {
+			continue
+		}
+		r := f.Root()
+		if r.Obj == nil || recvNamed(r.Obj) == nil || recvNamed(r.Obj).Obj().Name() != "subProcess" {
+			continue
+		}
+		in := info(f)
+		inspectNoLit(f.Body, func(m ast.Node) bool {
+			ts, ok := m.(*ast.TypeSwitchStmt)
+			if !ok {
+				return true
+			}
+			var cease *ast.CaseClause
+			for _, st := range ts.Body.List {
+				cc := st.(*ast.CaseClause)
+				for _, e := range cc.List {
+					if isNamed(in.TypeOf(e), pathBpmn, "CeaseFlowTrace") {
+						cease = cc
+					}
+				}
+			}
+			if cease == nil {
+				return true
+			}
+			n++
+			var bad []string
+			for _, st := range ts.Body.List {
+				cc := st.(*ast.CaseClause)
+				if cc == cease {
+					continue
+				}
+				for _, s := range cc.Body {
+					inspectNoLit(s, func(z ast.Node) bool {
+						switch x := z.(type) {
+						case *ast.ReturnStmt:
+							bad = append(bad, "return at "+c.pos(x))
+						case *ast.BranchStmt:
+							if (x.Tok == token.BREAK && x.Label != nil) || x.Tok == token.GOTO {
+								bad = append(bad, x.Tok.String()+" "+x.Label.Name+" at "+c.pos(x))
+							}
+						}
+						return true
+					})
+				}
+			}
+			c.Check(len(bad) == 0, f, ts, "exits of the relay dispatch of "+f.Root().QName(), what, ifElse(len(bad) == 0, "only the CeaseFlowTrace clause leaves the loop", "also: "+strings.Join(bad, "; ")))
+			return true
+		})
+	}
+	if n == 0 {
+		c.Missing("relay dispatch", "no type switch of the sub-process that has a CeaseFlowTrace case was found")
+	}
+}
